@@ -12,7 +12,7 @@ EXPLANATION = ('Censuses and guarded-act rules on ln::outbound_payment, ln::chan
 	'every path, with payment_hash = SHA256(preimage) of the same preimage; PaymentFailed from an HTLC failure requires (part removed) and (not '
 	'fulfilled) and (no parts remaining) and (Abandoned) and removes the entry; claim/fail enter only from the manager funnels; a new payment id '
 	'enters the map only through vacant-entry inserts; an outbound HTLC is marked fulfilled only by a preimage hashing to its payment hash. '
-	'Decides exactly-once / never-contradict necessary conditions on all paths; cross-restart replay order and failure attribution values are not decided.')
+	'Also: the monitor-release completion action rides on the last (terminal) event pushed by fail_htlc. Decides exactly-once / never-contradict necessary conditions on all paths; cross-restart replay order and failure attribution values are not decided.')
 ASSUMPTIONS = ['SHA256 implementation is correct', 'events are delivered to the user in queue order']
 
 def r03a(F):
